@@ -136,6 +136,14 @@ static Result run_case (const Case &c)
 	}
 	if (maj != SF_FORMAT_RAW && rate_representable (format, ch, rate) && ri.samplerate != rate)
 		bad ("rate_changed", std::to_string (ri.samplerate) + " != " + std::to_string (rate)) ;
+	if (maj == SF_FORMAT_SDS && !rate_representable (format, ch, rate) && rate >= 477 && rate <= 1000000000)
+	{	// SDS stores the sample period in ns in 21 bits: for a rate the field cannot hold exactly the re-opened rate must still be the one of a
+		// period next to the true one (either rounding of either division is accepted) - not one with a header bit lost
+		long long lo = 1000000000ll / rate, hi = lo + 1 ; bool ok = false ;
+		for (long long pp : { lo, hi }) if (pp >= 1 && pp < (1 << 21)) { long long q = 1000000000ll / pp ; if (ri.samplerate == q || ri.samplerate == q + 1) ok = true ; }
+		if (!ok) bad ("rate_changed", "SDS rate " + std::to_string (rate) + " (period " + std::to_string (lo) + " ns) re-opened as " + std::to_string (ri.samplerate)) ;
+		r.classes.push_back ("sds_rate:inexact_checked") ;
+	}
 	if (ri.samplerate < 1) bad ("rate_insane", std::to_string (ri.samplerate)) ;
 	int B = oracle_block (format, ch, rate, bytes) ;
 	if (B <= 0) bad ("catalogue_error", "block length not found in the produced file") ;
